@@ -135,7 +135,7 @@ class P(Prop):
                 if rng.random() < 0.5:
                     bs = [b | 1 if j % 9 == 0 else b for j, b in enumerate(bs)]
             else:
-                k = rng.randint(1, 8)
+                k = rng.randint(1, 8) if rng.random() < 0.9 else rng.choice([16, 17, 33, 65, 100])
                 if style == "empty":
                     ends = []
                 elif style == "negative":
